@@ -16,7 +16,7 @@ def tasks(tier):
     ts = []
     ts.append(Task('verifHarness_C20_time', [0], ARITH))
     ts.append(Task('verifHarness_C20_time', [1], ARITH))
-    for k, n in ([(1, 1), (1, 0)] if tier == "quick" else [(1, 0), (1, 3), (2, 1), (3, 1), (3, 3)]):
+    for k, n in ([(1, 1), (1, 0), (1, 255)] if tier == "quick" else [(1, 0), (1, 3), (1, 254), (1, 255), (2, 1), (3, 1), (3, 3)]):
         ts.append(Task('verifHarness_C20_write', [k, n, 0], ARITH))
     for k, n in ([(2, 1)] if tier == 'quick' else [(2, 1), (3, 1), (3, 3)]):
         maxlen = k * (8 + 25 + n)
@@ -37,7 +37,7 @@ def required_reach(tier):
 
 
 def bounds(tier):
-    return {'entries': '<= 2 (quick) / <= 3 (thorough), each v1 / v2 / signed v2 (forked), raw payload <= 1 (quick) / 3 (thorough) bytes, all contents symbolic',
+    return {'entries': '<= 2 (quick) / <= 3 (thorough), each v1 / v2 / signed v2 (forked), raw payload <= 1 (quick) / 3 (thorough) bytes plus one entry with the largest payload (255 bytes), all contents symbolic',
             'times': 'writer: sec in (-2^42, 2^42), nsec in [0, 1e9); reader lemma: every timestamp field value in (-2^62, 2^62)',
             'cuts': 'every byte offset of the log', 'read_segmentation': '2-entry log delivered in 1-byte reads or with a first transport read of 3 / 9 bytes (quick), eight sizes (thorough)',
             'failed_then_valid': 'an unencodable entry followed by a valid one: the file holds only the valid entry', 'write_failures': 'underlying Write failing at call 1, 2 or 3'}
